@@ -16,7 +16,6 @@ RULE = ('histories (<=30 ops) applied to the forward or the inverse object of a 
         'shared keys/values; reference = plain dict bijection / set of pairs; every instance is checked after every step. '
         'non-trivial: OneToOne - an assignment evicted an existing partner; ManyToMany - some key had >=2 values and '
         'some value >=2 keys; FrozenDict - >=2 items. distinct = distinct canonical JSON of the case.')
-RULE += ' Round 6: every result of updated()/copy/pickle is hashed and compared with the outcome of hashing an equal FrozenDict built from scratch (value or FrozenHashError) after hash() was attempted on the original.'
 ASSUMPTIONS = [
     'OneToOne.popitem may pop any present item; ManyToMany.replace onto an existing key may union or overwrite, provided both sides agree',
     'update(**kwargs) without a positional argument is not generated (OneToOne.update requires one)',
